@@ -208,7 +208,7 @@ static void otimer_cb(void *dummy)
 	maybe_finish();
 }
 
-static void quiescent(void)
+static int quiescent(void)
 {
 	int i;
 	for (i = 0; i < NE; i++)
